@@ -23,6 +23,12 @@ def run(ctx):
                 if ks == 24 and rng.random() < 0.4:
                     c["kbpk"] = c["kbpk"][:16] + c["kbpk"][:8]      # K1 K2 K1
                 cases.append(c)
+    # every key length 0..9 bytes (bit lengths 0..72: a length field of 16, 24 or 32 is a 2-, 3- or 4-byte key, not a byte count)
+    for v in "ABCD":
+        for kl in range(0, 10):
+            for mask in (None, kl):
+                c = t.gen_case(rng, version=v, profile="none", keylen=kl, mask=mask, algorithm=rng.choice("TAH"))
+                cases.append(c)
     # KBPKs at the msb corner of CMAC subkey generation (KBPK itself and derived KBAK; L and K1)
     for v, kbpk, label in t.cmac_boundary_kbpks(rng):
         c = t.gen_case(rng, version=v, profile=rng.choice(["none", "few"]))
